@@ -190,6 +190,9 @@ def check_case(ctx, case):
     fn = binning.even_width_lags if case['bin_func'] == 'even' else binning.uniform_count_lags
     with quiet():
         ml_now = V.maxlag
+    if not np.all(np.isfinite(edges)) or (ml_now is not None and not np.any(d[mask] <= ml_now)):
+        ctx.reject('no-selected-pair-within-maxlag')      # nothing to bin: outside C02's precondition
+        return
     ref, _ = fn(d[mask], case['n_lags'], ml_now)
     ctx.count('maxlag:' + str(case.get('maxlag')))
     if not all_close(edges, np.asarray(ref, float), rel=1e-12):
